@@ -593,7 +593,8 @@ def gen_schema(rng, opts=None):
                 styles += ["dict", "dict"]
             t.style = rng.choice(styles)
             for f in t.fields.values():
-                if f.args or rng.random() < o.p_explicit or t.name in (s.query, s.mutation, s.subscription):
+                is_root = t.name in (s.query, s.mutation, s.subscription)
+                if f.args or rng.random() < o.p_explicit or (is_root and rng.random() < 0.75):
                     f.resolver = "explicit"
                     if s.is_abstract(named_of(f.type)) and rng.random() < 0.4:
                         f.field_type_resolver = True
